@@ -13,7 +13,8 @@
 //!
 //! scenario syntax:  script0/script1/…   script = ops separated by `.`, `-` = empty script
 //!   shim thread 0 (the Dora main thread, registered like `execute_on_main`) runs script 0; `c<j>` spawns a
-//!   child running script j (each j ≥ 1 at most once).  Every thread ends with the exit sequence
+//!   child running script j (each j ≥ 1 at most once); 1-5 scripts (5 only in the thorough tier's built-in and
+//!   random scenarios; `replay` / `dfs` / corpus lines accept them in any tier).  Every thread ends with the exit sequence
 //!   (`remove_current_thread`).  ops (what a managed thread does between two safepoint polls):
 //!     t      touch the managed heap (`fadd H`) — legal in the mutator region only
 //!     p      safepoint poll: load the own state byte, `safepoint_slow()` if it is not Running
@@ -83,8 +84,8 @@ impl Scenario {
             scripts.push(sc);
         }
         let n = scripts.len();
-        if n == 0 || n > 4 {
-            return Err("1-4 threads".into());
+        if n == 0 || n > 5 {
+            return Err("1-5 threads".into());
         }
         let mut seen = vec![false; n];
         for sc in &scripts {
@@ -700,12 +701,24 @@ fn scenarios(tier: &str) -> Vec<(&'static str, usize, usize, usize)> {
         ("c1.c2.c3/p/n/s", 2, 0, 25000),
         ("c1.s.n/c2.p.s/c3.n/s.p", 2, 0, 25000),
         ("c1.c2.c3.p/s.t.p/n.s/p.n.t", 2, 1, 25000),
+        // 5 threads (main + 4 children), thorough tier only
+        // all five registered, then a non-last one leaves (swap-remove with 5 entries) while the last one requests
+        ("c1.c2.c3.c4/-/n.p/t.p/s", 1, 0, 25000),
+        ("c1.c2.c3.c4/-/n.p/t.p/s", 2, 0, 25000),
+        // spawn tree (main -> 1, 2; 1 -> 3; 3 -> 4), two concurrent requesters (main and the youngest thread)
+        ("c1.c2.s/c3.p/n.t/c4.p/s", 1, 0, 25000),
+        ("c1.c2.s/c3.p/n.t/c4.p/s", 2, 1, 25000),
+        // spawn chain main -> 1 -> 2 -> 3 -> 4: every add_thread / early exit races with the two requesters
+        ("c1.p.s/c2.n/c3.p/c4.t/s2", 2, 0, 25000),
+        // two requesters among the children, a child that leaves at once, poll / native call / heap access around them
+        ("c1.c2.c3.t/c4.p.s/n.t/-/s.p", 1, 1, 25000),
     ]);
     v
 }
 
-fn random_scenario(r: &mut Rng) -> Scenario {
-    let n = r.range(1, 4) as usize;
+/// `max_threads` = 4 in the quick tier (the generator then draws exactly what it always drew), 5 in the thorough tier
+fn random_scenario(r: &mut Rng, max_threads: i64) -> Scenario {
+    let n = r.range(1, max_threads) as usize;
     let mut scripts: Vec<Vec<Op>> = vec![Vec::new(); n];
     for j in 1..n {
         // the parent has a smaller index (no cycles); at most 4 ops per script
@@ -899,11 +912,12 @@ fn main() {
             // 3. seeded random schedules over random scenarios (PCT-style and uniform)
             let mut rng = Rng::from_env();
             let nrand = if tier == "quick" { 2000 } else { 20000 };
+            let max_threads = if tier == "quick" { 4 } else { 5 };
             for i in 0..nrand {
                 if sink.full() {
                     break;
                 }
-                let sc = Arc::new(random_scenario(&mut rng));
+                let sc = Arc::new(random_scenario(&mut rng, max_threads));
                 let spur = rng.below(3) as usize;
                 let seed = rng.next();
                 let ch: Box<dyn Chooser> = if i % 2 == 0 {
